@@ -991,7 +991,7 @@ class StochasticTMLE:
             self._exp_model_custom = True
             data = patsy.dmatrix(model + ' - 1', self.df)
             pred = exposure_machine_learner(xdata=np.asarray(data), ydata=np.asarray(self.df[self.exposure]),
-                                            ml_model=custom_model, print_results=self._verbose_)
+                                            ml_model=copy.deepcopy(custom_model), print_results=self._verbose_)
 
         if bound:  # Bounding predicted probabilities if requested
             pred2 = probability_bounds(pred, bounds=bound)
@@ -1054,7 +1054,7 @@ class StochasticTMLE:
             data = patsy.dmatrix(model + ' - 1', self.df)
             output = stochastic_outcome_machine_learner(xdata=np.asarray(data),
                                                         ydata=np.asarray(self.df[self.outcome]),
-                                                        ml_model=custom_model,
+                                                        ml_model=copy.deepcopy(custom_model),
                                                         continuous=self._continuous_outcome,
                                                         print_results=self._verbose_)
             self._Qinit_, self._outcome_model = output
